@@ -38,3 +38,14 @@ Print Assumptions iso_inverse_of_delivered_J_R.
 Theorem iso_normal_orthogonal_hex1 : normal_orthogonal_Q 3 (@iso_adj_3 poly PolyOps) hex1_dphi hex1_psi hex1_facets_n.
 Proof. exact (normal_sound_Q _ _ _ _ _ hex1_normal_orthogonal_to_dG). Qed.
 Print Assumptions iso_normal_orthogonal_hex1.
+
+(* second-order tetrahedra (MeshTet2, boundary element ElementTriP2): the facet map incl. the mid-edge nodes is the restriction of F
+   to the matching reference face, for all 6 orderings of the vertices of all 4 faces, and adj(J)^T N_s is orthogonal to both
+   tangents of the CURVED face.  Assumes that bndmap's stacked rows (facets, then edge_dofs[0, f2e]) list the face's nodes in the dof
+   order of the boundary element, i.e. f2e[m, f] is the edge joining facets[brefdom.edges[m], f] (C11). *)
+Theorem iso_facet_map_tet2 : facet_map_restricts_F_Q 3 tet2_phi tet2_psi tet2_facets.
+Proof. exact (facet_sound_Q _ _ _ _ tet2_facet_map_is_restriction_of_F). Qed.
+Print Assumptions iso_facet_map_tet2.
+Theorem iso_normal_orthogonal_tet2 : normal_orthogonal_Q 3 (@iso_adj_3 poly PolyOps) tet2_dphi tet2_psi tet2_facets_n.
+Proof. exact (normal_sound_Q _ _ _ _ _ tet2_normal_orthogonal_to_dG). Qed.
+Print Assumptions iso_normal_orthogonal_tet2.
